@@ -393,8 +393,11 @@ func (e *Enc) script(o *Obligation, withModel bool) string {
 		sb.WriteString(l + "\n")
 	}
 	sb.WriteString(o.query() + "\n(check-sat)\n")
-	if withModel && len(o.Inputs) > 0 {
-		sb.WriteString("(get-value (" + strings.Join(o.Inputs, " ") + "))\n")
+	if withModel {
+		ins := append(append([]string{}, o.Inputs...), e.extraInputs()...)
+		if len(ins) > 0 {
+			sb.WriteString("(get-value (" + strings.Join(ins, " ") + "))\n")
+		}
 	}
 	return sb.String()
 }
